@@ -292,6 +292,11 @@ class AioEnv:
     async def sleep(self, dt: float) -> None:
         await asyncio.sleep(dt)
 
+    async def cancel_self(self) -> bool:
+        asyncio.current_task().cancel()
+        await asyncio.sleep(0)
+        return True
+
     # ---- wiring -----------------------------------------------------------------------
     def start(self) -> None:
         sess = self.sess
